@@ -57,7 +57,7 @@ long long c_coord2cell(long long nrows, long long ncols,
     long long nval, double * xycoords, long long * idxcell)
 {
     long long ierr, i, nx, ny;
-    double fx, fy;
+    double dx, dy, fx, fy;
     ierr = 0;
 
     for(i=0; i<nval; i++)
@@ -67,10 +67,14 @@ long long c_coord2cell(long long nrows, long long ncols,
          * the grid are not mapped to the first column / bottom row.
          * The range test is done in double: it is false for nan
          * and safe for coordinates too large for an integer */
-        fx = floor((xycoords[2*i]-xll)/csz);
-        fy = floor((xycoords[2*i+1]-yll)/csz);
+        dx = xycoords[2*i]-xll;
+        dy = xycoords[2*i+1]-yll;
+        fx = floor(dx/csz);
+        fy = floor(dy/csz);
 
-        if(!(fx>=0 && fx<(double)ncols && fy>=0 && fy<(double)nrows))
+        /* .. the sign is tested on the difference: a tiny negative
+         * difference divided by the cell size can underflow to -0 */
+        if(!(dx>=0 && fx<(double)ncols && dy>=0 && fy<(double)nrows))
         {
             idxcell[i] = -1;
             continue;
